@@ -23,6 +23,8 @@ type host struct {
 	v1ok  bool // v1 transactions and supplements allowed in the child block
 	v2ok  bool // v2 transactions allowed in the child block
 	blk   *types.Block
+	blk2  *types.Block // carrier with two v1 transactions (placement probes)
+	tr    *truth       // what the history really holds: the source of the genuine copy in placement probes
 	// a genuine live v2 contract per proof height (parents for storage proofs that carry a probed chain index)
 	proofParents map[uint64]*types.V2FileContractElement
 	alt          altValues
@@ -174,6 +176,88 @@ func (h *host) askSupp(e elem, list string) (member bool, err error, pan any) {
 	}
 	_, pan = vlib.Recover(func() { err = consensus.ValidateBlock(h.cs, *blk, bs) })
 	return err == nil, err, pan
+}
+
+// carrier2 is a valid v1 block with two transactions: the supplement of the first can hold a genuine
+// (unreferenced) copy of an element while the supplement of the second holds the presented one.
+func (h *host) carrier2() *types.Block {
+	if h.blk2 != nil {
+		return h.blk2
+	}
+	txns := []types.Transaction{{ArbitraryData: [][]byte{[]byte("verif C04 carrier 0")}}, {ArbitraryData: [][]byte{[]byte("verif C04 carrier 1")}}}
+	b := seal(h.cs, h.K.Addr("A"), txns, nil)
+	if err := consensus.ValidateBlock(h.cs, b, consensus.V1BlockSupplement{Transactions: make([]consensus.V1TransactionSupplement, 2)}); err != nil {
+		hpanic("two-transaction carrier block invalid: %v", err)
+	}
+	h.blk2 = &b
+	return h.blk2
+}
+
+// putSupp appends the element to one list of the supplement (tx: index of the transaction supplement;
+// ignored for the block-level list of expiring contracts).
+func (h *host) putSupp(bs *consensus.V1BlockSupplement, tx int, list string, e elem) {
+	switch x := e.clone().v.(type) {
+	case *types.SiacoinElement:
+		bs.Transactions[tx].SiacoinInputs = append(bs.Transactions[tx].SiacoinInputs, x.Copy())
+	case *types.SiafundElement:
+		bs.Transactions[tx].SiafundInputs = append(bs.Transactions[tx].SiafundInputs, x.Copy())
+	case *types.FileContractElement:
+		switch list {
+		case "revised-contract":
+			bs.Transactions[tx].RevisedFileContracts = append(bs.Transactions[tx].RevisedFileContracts, x.Copy())
+		case "storage-proof-contract":
+			bs.Transactions[tx].StorageProofs = append(bs.Transactions[tx].StorageProofs, consensus.V1StorageProofSupplement{FileContract: x.Copy(), WindowID: h.cs.Index.ID})
+		default:
+			bs.ExpiringFileContracts = append(bs.ExpiringFileContracts, x.Copy())
+		}
+	}
+}
+
+// placements of a presented element e relative to a genuine copy g with the same ID inside one block
+// supplement. validateSupplement must judge every entry on its own: the block is acceptable iff every
+// entry is a member (Membership!SuppAccept).
+//
+//	same-list       g, then e in the same list of the same transaction (for expiring contracts: the same list)
+//	later-txn       g in the first transaction's supplement, e in the same list of the second transaction's
+//	                (for expiring contracts: g among the first transaction's revised contracts)
+//	cross-list      contracts: g in ANOTHER list of the first transaction, e in the list of the second
+//	forged-first    e in the first transaction's supplement, g in the second's (expiring: e before g)
+func placements(k kind) []string {
+	if k == kFC {
+		return []string{"same-list", "later-txn", "cross-list", "forged-first"}
+	}
+	return []string{"same-list", "later-txn", "forged-first"}
+}
+
+func (h *host) askSuppPlaced(g, e elem, list, placement string) (accepted bool, err error, pan any) {
+	blk := h.carrier2()
+	bs := consensus.V1BlockSupplement{Transactions: make([]consensus.V1TransactionSupplement, 2)}
+	other := "revised-contract"
+	if list == other {
+		other = "storage-proof-contract"
+	}
+	switch placement {
+	case "same-list":
+		h.putSupp(&bs, 0, list, g)
+		h.putSupp(&bs, 0, list, e)
+	case "later-txn":
+		if list == "expiring-contract" {
+			h.putSupp(&bs, 0, "revised-contract", g)
+		} else {
+			h.putSupp(&bs, 0, list, g)
+		}
+		h.putSupp(&bs, 1, list, e)
+	case "cross-list":
+		h.putSupp(&bs, 0, other, g)
+		h.putSupp(&bs, 1, list, e)
+	case "forged-first":
+		h.putSupp(&bs, 0, list, e)
+		h.putSupp(&bs, 1, list, g)
+	default:
+		hpanic("unknown placement %s", placement)
+	}
+	_, pan = vlib.Recover(func() { err = consensus.ValidateBlock(h.cs, *blk, bs) })
+	return err == nil && pan == nil, err, pan
 }
 
 // ---------------------------------------------------------------------------
@@ -379,16 +463,37 @@ func (h *host) v1Attack(cs consensus.State, e elem) (txn types.Transaction, ts c
 
 // askSuppUsed asks ValidateBlock about a v1 block in which the presented element is the actual parent
 // of a signed transaction and is supplied through the supplement. decisive: as for askV2Txn.
-func (h *host) askSuppUsed(e elem) (accepted, built, decisive bool, err error, pan any) {
-	txn, ts, ok := h.v1Attack(h.cs, e)
+//
+// With a genuine copy g (same ID) and an order, the block has a second, unrelated transaction whose
+// supplement carries g unreferenced: "genuine-earlier" puts that transaction (and so g) before the
+// spending one, "forged-earlier" after it. The spending transaction's outputs are balanced against the
+// PRESENTED element, so that only the membership check can reject it.
+func (h *host) askSuppUsed(e elem, g *elem, order string) (accepted, built, decisive bool, err error, pan any) {
+	miner := h.K.Addr("A")
+	extra := types.Transaction{ArbitraryData: [][]byte{[]byte("verif C04 bystander")}}
+	assemble := func(cs consensus.State, e elem) (types.Block, consensus.V1BlockSupplement, bool) {
+		txn, ts, ok := h.v1Attack(cs, e)
+		if !ok {
+			return types.Block{}, consensus.V1BlockSupplement{}, false
+		}
+		if g == nil {
+			return seal(cs, miner, []types.Transaction{txn}, nil), consensus.V1BlockSupplement{Transactions: []consensus.V1TransactionSupplement{ts}}, true
+		}
+		bs := consensus.V1BlockSupplement{Transactions: make([]consensus.V1TransactionSupplement, 2)}
+		if order == "genuine-earlier" {
+			h.putSupp(&bs, 0, usedRole(e.k), *g)
+			bs.Transactions[1] = ts
+			return seal(cs, miner, []types.Transaction{extra, txn}, nil), bs, true
+		}
+		bs.Transactions[0] = ts
+		h.putSupp(&bs, 1, usedRole(e.k), *g)
+		return seal(cs, miner, []types.Transaction{txn, extra}, nil), bs, true
+	}
+	blk, bs, ok := assemble(h.cs, e)
 	if !ok {
 		return false, false, false, nil, nil
 	}
-	miner := h.K.Addr("A")
-	blk := seal(h.cs, miner, []types.Transaction{txn}, nil)
-	_, pan = vlib.Recover(func() {
-		err = consensus.ValidateBlock(h.cs, blk, consensus.V1BlockSupplement{Transactions: []consensus.V1TransactionSupplement{ts}})
-	})
+	_, pan = vlib.Recover(func() { err = consensus.ValidateBlock(h.cs, blk, bs) })
 	accepted = err == nil && pan == nil
 	e2 := e.clone()
 	proof := make([]types.Hash256, 63)
@@ -399,12 +504,9 @@ func (h *host) askSuppUsed(e elem) (accepted, built, decisive bool, err error, p
 	cs2 := h.cs
 	cs2.Elements.NumLeaves |= 1 << 63
 	cs2.Elements.Trees[63] = e2.leaf(false).ProofRoot()
-	if txn2, ts2, ok2 := h.v1Attack(cs2, e2); ok2 {
-		blk2 := seal(cs2, miner, []types.Transaction{txn2}, nil)
+	if blk2, bs2, ok2 := assemble(cs2, e2); ok2 {
 		var cerr error
-		if p, _ := vlib.Recover(func() {
-			cerr = consensus.ValidateBlock(cs2, blk2, consensus.V1BlockSupplement{Transactions: []consensus.V1TransactionSupplement{ts2}})
-		}); !p && cerr == nil {
+		if p, _ := vlib.Recover(func() { cerr = consensus.ValidateBlock(cs2, blk2, bs2) }); !p && cerr == nil {
 			decisive = true
 		}
 	}
@@ -612,25 +714,67 @@ func judge(c *vlib.Ctx, st *stats, h *host, p probe, o judgeOpts) {
 			}
 		}
 	}
+	// the genuine element with the same ID, if the history holds one (placement probes)
+	var genuine *elem
+	if h.tr != nil && len(suppLists(k)) > 0 {
+		if g, ok := h.tr.live[tkey(p.e)]; ok {
+			genuine = &g
+		}
+	}
 	if role := usedRole(k); o.v2txn && h.v1ok && role != "" {
-		acc, built, dec, err, pan := h.askSuppUsed(p.e)
-		if built {
+		type variant struct {
+			door, role, order string
+			g                 *elem
+		}
+		vs := []variant{{"supp-used", role, "", nil}}
+		if genuine != nil {
+			vs = append(vs, variant{"supp-used-placed", role + "/genuine-earlier", "genuine-earlier", genuine}, variant{"supp-used-placed", role + "/forged-earlier", "forged-earlier", genuine})
+		}
+		for _, v := range vs {
+			acc, built, dec, err, pan := h.askSuppUsed(p.e, v.g, v.order)
+			if !built {
+				continue
+			}
 			st.mu.Lock()
 			if !dec && !acc && pan == nil {
-				st.nondec["v1:"+role]++
+				st.nondec["v1:"+v.role]++
 				st.mu.Unlock()
-			} else {
-				st.note("supp-used", role, k, acc)
-				if acc == p.exp && !acc && p.tpath != "" {
-					st.field("supp-used", k, p.tpath)
+				continue
+			}
+			st.note(v.door, v.role, k, acc)
+			if acc == p.exp && !acc && p.tpath != "" {
+				st.field(v.door, k, p.tpath)
+			}
+			st.mu.Unlock()
+			if acc != p.exp || pan != nil {
+				extra := ""
+				if err != nil {
+					extra = " (" + err.Error() + ")"
+				}
+				report(v.door, v.role, acc, pan, extra)
+			}
+		}
+	}
+	if o.supp && h.v1ok && genuine != nil {
+		for _, list := range suppLists(k) {
+			for _, pl := range placements(k) {
+				// "later-txn" for every probe; the other placements for every third probe (and every genuine one)
+				if pl != "later-txn" && fp%3 != 0 && !p.exp {
+					continue
+				}
+				got, err, pan := h.askSuppPlaced(*genuine, p.e, list, pl)
+				st.mu.Lock()
+				st.note("supp-placed", list+"/"+pl, k, got)
+				if got == p.exp && !got && p.tpath != "" {
+					st.field("supp-placed", k, p.tpath)
 				}
 				st.mu.Unlock()
-				if acc != p.exp || pan != nil {
-					extra := ""
+				if got != p.exp || pan != nil {
+					extra := " with a genuine copy of the same ID in the same supplement"
 					if err != nil {
-						extra = " (" + err.Error() + ")"
+						extra += " (" + err.Error() + ")"
 					}
-					report("supp-used", role, acc, pan, extra)
+					report("supp-placed", list+"/"+pl, got, pan, extra)
 				}
 			}
 		}
